@@ -367,7 +367,7 @@ impl<'a> TryFrom<&'a str> for DecimalConst<'a> {
         }
         let mut first = true;
         for c in value.chars() {
-            if !(take(&mut first) && c == '-' || c.is_ascii_hexdigit()) {
+            if !(take(&mut first) && c == '-' || c.is_ascii_digit()) {
                 return Err(InvalidConstError::InvalidDigit(c));
             }
         }
